@@ -49,7 +49,9 @@ type Req struct {
 	Method string `json:"method,omitempty"`
 	// Wrap: the component is rendered inside a generated template that adds no markup of its own:
 	// gen (@c), flush (@templ.Flush() { @c }), children (as the block of another template), once
-	// (inside a once handle's block), deep (all of them nested), join (templ.Join). "" = directly.
+	// (inside a once handle's block), deep (all of them nested), join (templ.Join), ignored-block (a
+	// hand-written callee that is given a block and never renders it), slot-root (followed by a
+	// children slot that gets no block). "" = directly.
 	Wrap string `json:"wrap,omitempty"`
 }
 
@@ -70,7 +72,7 @@ type Case struct {
 
 var rec = ev.New("C11", "c11.handler",
 	"histories of 1..12 requests against templ.Handler (and renders through templ.ToGoHTML, which shares its buffer pool) with generated configuration (status unset/200/201/404/500, content type, error handler none / header+body / body only / nothing / status only, streaming on/off) and a component that writes k chunks "+
-		"(0..64KiB, alphabet disjoint from every error text) then fails or not - handed to the handler directly or inside generated templates that add no markup (plain call, templ.Flush block, children block, once block, all nested, templ.Join) -, for GET, HEAD and POST requests - in a quarter of the requests with the request's context cancelled at that moment, as a timeout middleware does -, via httptest.ResponseRecorder and via a real loopback net/http server; buffered oracle: success => configured status+content type+exact document; failure => exactly the default 500 message or exactly the error handler's response, no document byte, "+
+		"(0..64KiB, alphabet disjoint from every error text) then fails or not - handed to the handler directly or inside generated templates that add no markup (plain call, templ.Flush block, children block, once block, all nested, templ.Join, as a hand-written callee that ignores the block it is given, in front of a children slot that gets no block) -, for GET, HEAD and POST requests - in a quarter of the requests with the request's context cancelled at that moment, as a timeout middleware does -, via httptest.ResponseRecorder and via a real loopback net/http server; buffered oracle: success => configured status+content type+exact document; failure => exactly the default 500 message or exactly the error handler's response, no document byte, "+
 		"never the configured success status. Non-trivial = failure after >=1 chunk, or a success following a failure in the same history; distinct by request configuration + position")
 
 var errCause = errors.New("component failed deliberately")
@@ -121,6 +123,10 @@ func wrapped(r Req) templ.Component {
 		return fx.WrapDeep(c)
 	case "join":
 		return templ.Join(c)
+	case "ignored-block":
+		return fx.WrapIgnoredBlock(c)
+	case "slot-root":
+		return fx.WrapSlotRoot(c)
 	}
 	return c
 }
@@ -393,7 +399,7 @@ var genReq = rapid.Custom(func(t *rapid.T) Req {
 	r.CtxDone = !r.ToGoHTML && rapid.IntRange(0, 3).Draw(t, "ctxDone") == 0
 	if !r.ToGoHTML {
 		r.Method = rapid.SampledFrom([]string{"", "", "", "HEAD", "HEAD", "POST"}).Draw(t, "method")
-		r.Wrap = rapid.SampledFrom([]string{"", "", "gen", "flush", "flush", "children", "once", "deep", "join"}).Draw(t, "wrap")
+		r.Wrap = rapid.SampledFrom([]string{"", "", "gen", "flush", "flush", "children", "once", "deep", "join", "ignored-block", "ignored-block", "slot-root", "slot-root"}).Draw(t, "wrap")
 	}
 	return r
 })
